@@ -191,6 +191,12 @@ func c27ChannelsCodecs() []*kit.Codec {
 		{"mixed", channeltransport.PullHintBatchResponse{Items: []channeltransport.PullHintBatchItemResult{{}, {Err: errPlain}, {Err: errDetail}, {Err: errUnknown}, {}}}},
 	}
 	out = append(out, c27Legacy(c27Codec("PullHintBatchResponse", kindPullHintBatchResponse, true, encodePullHintBatchResponse, decodePullHintBatchResponse, hintBatchResps), c27ResultV[channeltransport.PullHintBatchResponse](kindPullHintBatchResponse), hintBatchResps[1:]))
+	// the only declared collection bound of this codec is "count <= remaining bytes"; items without
+	// an error encode to one byte each, so these values sit exactly on that bound
+	for _, n := range []int{1, 127, 128, 300} {
+		out[len(out)-1].Boundary = append(out[len(out)-1].Boundary, kit.Value{Label: fmt.Sprintf("count==remaining-bytes=%d", n),
+			V: channeltransport.PullHintBatchResponse{Items: make([]channeltransport.PullHintBatchItemResult, n)}})
+	}
 
 	notifies := []c27Named[channeltransport.NotifyRequest]{
 		{"zero", channeltransport.NotifyRequest{}},
